@@ -657,6 +657,16 @@ func (m *vf20Machine) handshake(op vf20Op) {
 			m.env.id.Name, cerr, serr, strings.Join(m.trace, " "))
 		return
 	}
+	if (cerr != nil || serr != nil) && m.env.id.custom() && m.inj != nil && m.inj.Kind == "psk" && len(m.inj.Ticket) > 0 {
+		// same class as the empty session_ticket: the user's PSK extension never replaced the spec's, but its binder
+		// patch is still applied to the marshalled hello
+		if hs := vfClientHellosOnWire(pair.CP.Written()); len(hs) == 1 && !bytes.Contains(hs[0], m.inj.Ticket) {
+			m.st.Class("outcome:known:custom-spec-session-not-sent")
+			m.st.KnownOrViolation(m.t, vf20KeyCustomDropped, "%s (HelloCustom, ApplyPreset before the setter): the injected PSK identity is not sent and the binder patch corrupts the ClientHello (reference parser: %v); client=%v server=%v; ops=%s",
+				m.env.id.Name, vfParseClientHello(hs[0]).Violations, cerr, serr, strings.Join(m.trace, " "))
+			return
+		}
+	}
 	if cerr != nil || serr != nil {
 		m.fail("handshake failed in an ordering the documentation allows: client=%v server=%v", cerr, serr)
 	}
